@@ -98,6 +98,8 @@ def correspondence(ctx, scns, name, shard=30):
                 mism.append(dict(where="Model/Eval.v vs labrea", op_index=oi, op=repr(op), impl=a, model=strip_ghost(b),
                                  scenario_repr=dump_scn(s)))
                 break
+            if "unmod" in split(strip_ghost(b))[0]:
+                break      # outside the modelled universe: the two stores may have diverged; stop comparing this history
     return impls, models, mism, stats
 
 
